@@ -125,6 +125,34 @@ def run(m, rep, tier):
     _ae = rep.rule('A8', 'every store / effectful call made with assertions enabled is also made by the NDEBUG build (no work inside assert())', floor=1)
     check_assert_effects(m, _ae, ('array.c', 'array.h'))
 
+    # ---- A9: slice and unslice describe a view with the same members ---------------------------------
+    # both make the destination object a view of the source's buffer: every member of the view object one of them
+    # writes, the other must write too (a member added to the object and filled in by only one of them keeps a stale value)
+    a9 = rep.rule('A9', 'slice and unslice write the same members of the destination view object', floor=1)
+    fs_, fu_ = m.ifn('cstl_array_slice'), m.ifn('cstl_array_unslice')
+    if fs_ is None or fu_ is None:
+        a9.undecided('slice/unslice', 'not in the inlined model')
+    else:
+        def written(f, dst):
+            out = set()
+            for s2 in f.all_insts():
+                if s2.op == 'store':
+                    a = resolve_addr(f, s2.o[1])
+                    if a.root == dst and a.steps:
+                        out.add(a.steps[0])
+            return out
+        ws, wu = written(fs_, '$3'), written(fu_, '$1')
+        if ws == wu and ws:
+            a9.ok('slice/unslice', 'both write %s' % ', '.join(sorted(ws)))
+        elif not ws or not wu:
+            a9.undecided('slice/unslice', 'no member stores into the destination object found')
+        else:
+            only_s, only_u = sorted(ws - wu), sorted(wu - ws)
+            a9.violation('slice/unslice', 'the two functions do not fill in the same members of the destination view: %s%s: the member keeps whatever the '
+                         'destination object held before' % (('only slice writes ' + ', '.join(only_s)) if only_s else '',
+                                                             ('; ' if only_s and only_u else '') + (('only unslice writes ' + ', '.join(only_u)) if only_u else '')),
+                         floc(m, fu_ if only_s else fs_), {})
+
 
 def check_coupled(m, f, k, d, rule):
     root = '$%d' % k
